@@ -924,7 +924,8 @@ theorem makeTable_grid (ext : Ext) (fi : Int → Str) (t : TableVal) (hwf : WF t
       simp only [id]
       apply List.take_of_length_le
       simp [this]
-    simp only [htake, hall, if_true, hunits, hrows]
+    have hlen : ¬ (t.columns.map (fun c => Cell.str c.unit)).length < (t.columns.map (·.name)).length := by simp
+    simp only [hlen, if_false, htake, hall, if_true, hunits, hrows]
     rw [destinations_join t.destinations hdne hdnd hdtok]
     rfl
   -- finish
@@ -1007,6 +1008,15 @@ def exampleTable : TableVal :=
     ⟨"d".toList, "datetime".toList, [.dt "2020-01-02T03:04:05.000006".toList, .dt "2020-01-02T03:04:05.000006".toList]⟩]⟩
 
 example : WF exampleTable := by decide
+example : exampleTable.destinations.Nodup ∧ (exampleTable.columns.map (·.name)).Nodup := by decide
+
+/-- `json_pure` is not vacuous: a dict holding a float64 array with a NaN converts, the NaN becomes `null` -/
+example : toJsonSerializable (.dict [("a".toList, .f64arr ["nan".toList, "1.5".toList])]) =
+    .ok (.obj [("a".toList, .arr [.null, .num "1.5".toList])]) := rfl
+
+/-- …and the failures are the modelled ones -/
+example : toJsonSerializable (.list [.float "1.0".toList, .npscalar]) = .error .indexError ∧
+    toJsonSerializable (.list [.other, .npscalar]) = .error notImplemented := ⟨rfl, rfl⟩
 example : Codec exampleExt exampleFi exampleTable := by decide
 
 /-- the model really computes the round trip on the example (not only by the theorem) -/
